@@ -146,7 +146,8 @@ partial def scenario (st : Stats) (d0 : Daemon) (sc : Scen) : List String → IO
 /-- the `C <chan> <delnum> <fn> <sender> <recip>` groups of a D line: per channel, in order of appearance -/
 def parseDeliveries : List String → Option (List (Nat × Bytes × Bytes × Bytes))
   | [] => some []
-  | "C" :: ch :: _dn :: fnh :: sh :: rh :: rest =>
+  | "C" :: ch :: slot :: fnh :: sh :: rh :: rest =>
+    if slot != "ok" then none else      -- delivery slot number out of range
     match ch.toNat?, unhex fnh, unhex sh, unhex rh, parseDeliveries rest with
     | some c, some fnm, some s, some r, some l => some ((c, fnm, s, r) :: l)
     | _, _, _, _, _ => none
